@@ -228,6 +228,10 @@ func (e *Engine) Run(t *tape.Tape, keep bool) *sim.Result {
 			switch t.Pick(3, 2, 2, 2) {
 			case 0:
 				f = byte(t.Draw(256))
+				if f%8 == 0 {
+					// frame types that look like the escape codes
+					f = []byte{slipb.ESC_END, slipb.ESC_ESC}[int(f/8)%2]
+				}
 			case 1:
 				f = slipb.FRAME_COAP
 			case 2:
